@@ -251,7 +251,7 @@ def step (line : String) : String :=
   | ["CHAR", classes, w] =>
     match (splitList "|" classes).mapM parseSpec, parseWord w with
     | some specs, some w =>
-      match specs.findIdx? (fun c => c.isValid w) with
+      match characterize specs w with
       | some i => toString i
       | none => "none"
     | _, _ => "bad-op"
